@@ -236,6 +236,13 @@ def run_property(prop, tier, facts_path=None, repo=None, quiet=False, write_evid
             mod.run(ctx)
         except AnchorMissing as e:
             ctx.bad("ANCHOR", "missing|%s" % e, "an anchor the rules rely on is missing (fail closed)", detail=str(e))
+        except Exception as e:       # a construct the analysis does not understand: fail closed, as a reported obligation
+            import traceback
+            tb = traceback.extract_tb(e.__traceback__)
+            site = "%s:%s" % (os.path.basename(tb[-1].filename), tb[-1].name) if tb else "?"
+            ctx.bad("ANALYSIS", "analysis-error|%s|%s" % (site, type(e).__name__),
+                    "the rule set could not analyse this tree (a construct outside what the rules model): the property is not shown to hold, reported as a violation rather than passed",
+                    detail="".join(traceback.format_exception_only(type(e), e)).strip()[:300] + " @ " + " <- ".join("%s:%d" % (os.path.basename(f.filename), f.lineno) for f in tb[-3:][::-1]))
         all_obl += ctx.obligations
         analysed_fns |= ctx.analysed["functions"]
         notes += ctx.notes
